@@ -43,7 +43,7 @@ impl World {
         if f[0] == "fs.crash" {
             return crate::enf::fs_crash(&self.rt, &dec_lists(f[1]), &dec_lists(f[2]), f[3].parse().unwrap());
         }
-        if f[0].starts_with("e.") || f[0].starts_with("m.") || f[0] == "fs.unlink" {
+        if f[0].starts_with("e.") || f[0].starts_with("m.") || f[0] == "fs.unlink" || f[0] == "fs.blocktmp" || f[0] == "fs.unblocktmp" {
             return self.ew.exec(&self.rt, &f);
         }
         match f[0] {
